@@ -2,7 +2,7 @@
 """Copy the deliverables of the mutant-writing sub-agents from /tmp/wt-<ID> into /verif/seeded."""
 import glob, json, os, shutil, subprocess, sys
 
-for wt in sorted(glob.glob("/tmp/wt-C*")):
+for wt in sorted(glob.glob("/tmp/wt-C*") + glob.glob("/tmp/wt3-C*")):
     pid = wt.rsplit("-", 1)[1]
     for n in (1, 2, 3):
         diff = os.path.join(wt, f"mutant_{n}.diff")
